@@ -374,6 +374,10 @@ type AdvClient struct {
 	Chain      [][]byte           // certificate chain to present (leaf first); nil = none
 	Key        ed25519.PrivateKey // key used for the CertificateVerify
 	CutAfter   int                // >0: close the socket after this many bytes were written
+	// ResetAfterWrites >0: right after that many Write calls (TLS flights: 1 = the
+	// ClientHello, 2 = the client's Finished, ...) the TCP connection is reset
+	// (linger 0 + close), with nothing in between
+	ResetAfterWrites int
 	ServerName string
 }
 
@@ -404,6 +408,23 @@ func (c *cutConn) Write(b []byte) (int, error) {
 	return c.Conn.Write(b)
 }
 
+type resetConn struct {
+	net.Conn
+	left int
+}
+
+func (c *resetConn) Write(b []byte) (int, error) {
+	n, err := c.Conn.Write(b)
+	c.left--
+	if c.left == 0 {
+		if tc, ok := c.Conn.(*net.TCPConn); ok {
+			_ = tc.SetLinger(0)
+		}
+		_ = c.Conn.Close()
+	}
+	return n, err
+}
+
 // Handshake connects and handshakes; the connection is left open on success
 // (caller closes) so that the server side can finish.
 func (a *AdvClient) Handshake(addr string) AdvResult {
@@ -419,6 +440,9 @@ func (a *AdvClient) Handshake(addr string) AdvResult {
 	var c net.Conn = raw
 	if a.CutAfter > 0 {
 		c = &cutConn{Conn: raw, budget: a.CutAfter}
+	}
+	if a.ResetAfterWrites > 0 {
+		c = &resetConn{Conn: raw, left: a.ResetAfterWrites}
 	}
 	cfg := &tls.Config{InsecureSkipVerify: true, NextProtos: a.NextProtos, MinVersion: tls.VersionTLS13, ServerName: a.ServerName}
 	if a.Chain != nil {
